@@ -7,6 +7,21 @@ TRUSTED_COMMON = [
     "harness canonicalisation (hex, ordering of printed sets, PANIC counted as a refusal for codec comparison)",
 ]
 
+
+STORAGE_HARNESS = [
+    {"bin": "storage_diff", "model": True, "stateful": True, "name": "storage_diff-mem",
+     "quick": ["--backend", "mem", "--seqs", "50", "--len", "60"], "thorough": ["--backend", "mem", "--seqs", "1500", "--len", "80"]},
+    {"bin": "storage_diff", "model": True, "stateful": True, "name": "storage_diff-sqlite",
+     "quick": ["--backend", "sqlite", "--seqs", "50", "--len", "60"], "thorough": ["--backend", "sqlite", "--seqs", "1500", "--len", "80"]},
+]
+STORAGE_TRUST = [
+    "translator tools/translate/sql_tables.py (ORDER BY clauses, FK cascade edges, restore/snapshot statement plans by regex on rustfmt-formatted source)",
+    "modelled, not verified: rusqlite/SQLite statement and transaction semantics, the lru crate (memory backend below its capacity limits), serde_json row encodings; both backends are compared with the contract model on every run",
+]
+STORAGE_ASSUME = [
+    "operation sequences stay within both backends' documented limits (cache capacity, validation lengths); snapshots are taken of existing groups; a nostr group id is not moved between groups",
+]
+
 REGISTRY = {
     "C15": {
         "props_file": "Props/C15.v",
@@ -23,4 +38,7 @@ REGISTRY = {
             "RelayUrl::parse is a function of its input (oracle); BTreeSet order of PublicKey/RelayUrl is bytewise lexicographic",
         ],
     },
+    "C09": {"props_file": "Props/C09.v", "gen": ["sql_tables"], "harness": STORAGE_HARNESS, "trusted_base": STORAGE_TRUST, "assumptions": STORAGE_ASSUME},
+    "C10": {"props_file": "Props/C10.v", "gen": ["sql_tables"], "harness": STORAGE_HARNESS, "trusted_base": STORAGE_TRUST, "assumptions": STORAGE_ASSUME},
+    "C18": {"props_file": "Props/C18.v", "gen": ["sql_tables"], "harness": STORAGE_HARNESS, "trusted_base": STORAGE_TRUST, "assumptions": STORAGE_ASSUME},
 }
